@@ -214,8 +214,13 @@ class BackupManager:
             raise HedFileError("BadBackupRootPath",
                                f"Backup root path {backup_root_path} for {backup_name} "
                                f"does not exist so backup invalid", "")
-        with open(backup_dict_path, 'r') as fp:
-            backup_dict = json.load(fp)
+        try:
+            with open(backup_dict_path, 'r') as fp:
+                backup_dict = json.load(fp)
+        except ValueError as e:
+            raise HedFileError("BadBackupDictionary",
+                               f"Backup dictionary {backup_dict_path} for backup {backup_name} "
+                               f"is not valid JSON so backup invalid: {str(e)}", "")
         backup_paths = set([os.path.realpath(os.path.join(backup_root_path, backup_key))
                             for backup_key in backup_dict.keys()])
         file_paths = set(io_util.get_file_list(backup_root_path))
